@@ -207,8 +207,8 @@ Theorem C19_zero_operand_fastpaths_refuted : forall x y n m, n <> m -> n <> 1 ->
   torch_elementwise_shape (x ++ [n; n]) (y ++ [m; m]) = None /\
   pinned_add_zero_operand (x ++ [n; n]) (y ++ [m; m]) = Ok (x ++ [n; n]) /\
   pinned_mul_zero_operand (x ++ [n; n]) (y ++ [m; m]) = Ok (y ++ [m; m]) /\
-  gen_zero_add (x ++ [n; n]) (y ++ [m; m]) = Ok (y ++ [m; m]).
-Proof. intros. rewrite gen_zero_add_eq. apply add_zero_operand_refuted; assumption. Qed.
+  pinned_zero_add (x ++ [n; n]) (y ++ [m; m]) = Ok (y ++ [m; m]).
+Proof. intros. apply add_zero_operand_refuted; assumption. Qed.
 
 (* ---- pinned overrides that skip the base check: the full-strength statement is FALSE of them ------------- *)
 
